@@ -61,20 +61,20 @@ checks["C09"]=dict(
    technique="must-call-in-order on the Go call sites + template-AST rules (range/if/template nodes) + operator table",
    design="§3.C09")
 checks["C02"]=dict(
-   text="Generator-side necessary conditions: every place where a jenny can write one of cog's placeholder texts is located, the kind dispatch guarding it is recovered, and each kind it does not handle must be removed by the language's pass chain or carry a reviewed reason (nine genuine leaks recorded as findings, four fixed); Go scalar kinds printed verbatim are Go types; goimports is registered under exactly !SkipPostFormatting and its error fails the run; every module-qualified name written by the Go/Python/TypeScript jennies and templates has its import registered on the same path; iteration callbacks keep the first error; numbers reach the IR as int64/float64.",
+   text="Generator-side necessary conditions: every place where a jenny can write one of cog's placeholder texts is located, the kind dispatch guarding it is recovered, and each kind it does not handle must be removed by the language's pass chain or carry a reviewed reason (nine genuine leaks recorded as findings, four fixed); Go scalar kinds printed verbatim are Go types; goimports is registered under exactly !SkipPostFormatting and its error fails the run; every module-qualified name written by the Go/Python/TypeScript jennies and templates has its import registered on the same path; iteration callbacks keep the first error; numbers reach the IR as int64/float64; templates referring to the generated Go runtime are only rendered under !SkipRuntime; a literal searched by binary search is sorted (0 sites + built-in examples); every kind-naming disjunct of the guard in front of the Go struct-defaults chain implies a branch of that chain; default values that may be lists are never printed through the []string-only formatter.",
    note="Trusted: go/types resolution, text/template/parse trees, the reviewed table of placeholder sites (36) and its reasons. NOT decided: that emitted code type-checks / byte-compiles / compiles (target toolchains needed), option-combination interactions, Java/PHP import discipline.",
    technique="kind-dispatch exhaustiveness against the per-language normal form (switch / predicate chain / kind-keyed map) + who-must-call rule for import registration (Go AST and template AST, call-site inheritance) + sticky-error flow rule + frontier taint rule for numbers",
-   design="§3.C02")
+   design="§3.C02, §12, §14.2")
 checks["C10"]=dict(
-   text="Generator-side necessary conditions for 'declared defaults and constants reach the constructors unaltered': untyped values of the JSON Schema library reach the IR only through unwrapJSONNumber (total: Int64, else Float64, element-wise); the CUE front-end reads each kind with its own accessor; every JSON-family walker that builds a type carries the node's default; no compiler pass replacing a type drops its Default (Visitor callbacks and hand-rolled ast.NewRef rewrites); a default taken from a scalar constant comes from the operand known to be concrete; the Go and Python jennies use struct-default overrides unfiltered. Eight dropped-default defects fixed in /repo, one (union defaults in Go) recorded.",
+   text="Generator-side necessary conditions for 'declared defaults and constants reach the constructors unaltered': untyped values of the JSON Schema library reach the IR only through unwrapJSONNumber (total: Int64, else Float64, element-wise); the CUE front-end reads each kind with its own accessor; every JSON-family walker that builds a type carries the node's default; no compiler pass replacing a type drops its Default (Visitor callbacks and hand-rolled ast.NewRef rewrites); a default taken from a scalar constant comes from the operand known to be concrete; the Go and Python jennies use struct-default overrides unfiltered; enum walkers convert member values and the default alike; Python writes a literal default into a signature only after collection / object kinds have left. Nine dropped-default defects fixed in /repo, one (union defaults in Go) recorded.",
    note="Trusted: go/types resolution; the exemption tables (walkers for composition keywords and $ref, three fresh-reference sites). NOT decided: rendering of defaults by formatScalar/formatValue (maps, non-string lists), Go/Python agreement on concrete values, that constructors compile.",
    technique="frontier taint rule (source: untyped library fields; sanitizer: unwrapJSONNumber; sinks: everything else) + sibling agreement of walkers + must-carry rule on type replacements + dominance of concreteness tests",
-   design="§3.C10")
+   design="§3.C10, §12, §14.2")
 checks["C12"]=dict(
-   text="Generator-side necessary conditions decided on the shared JSON Schema jenny: kind and scalar-kind dispatch are total (two kinds fall through to the empty schema: findings); every keyword written is valid in draft-07 and in OpenAPI 3.0 with the same value type (const, numeric exclusive bounds, type null: findings, each rejected by cog's own OpenAPI front-end); foreign `$ref`s are enqueued whenever they resolve, the closure loop runs until the queue is empty and formats each queued object through formatType on every path; property keys are field.Name, `required` exactly under field.Required, `default` exactly under Default != nil with that value; Nullable is reflected (finding), `any` does not constrain the type (finding), a map's index type is only described under a positive string test; every constraint operator is translated (!=: finding).",
+   text="Generator-side necessary conditions decided on the shared JSON Schema jenny: kind and scalar-kind dispatch are total (two kinds fall through to the empty schema: findings); every keyword written is valid in draft-07 and in OpenAPI 3.0 with the same value type (const, numeric exclusive bounds, type null: findings, each rejected by cog's own OpenAPI front-end); foreign `$ref`s are enqueued whenever they resolve, the closure loop runs until the queue is empty and formats each queued object through formatType on every path; property keys are field.Name, `required` exactly under field.Required, `default` exactly under Default != nil with that value; Nullable is reflected (finding), `any` does not constrain the type (finding), a map's index type is only described under a positive string test; every constraint operator is translated (!=: finding); unions are emitted under anyOf and const under exactly IsConcrete().",
    note="Trusted: the two keyword vocabularies tabulated in c12.go. NOT decided: validity of whole documents for independent loaders, validation of arbitrary encoded Go values (only the nullable/any clauses), name collisions of foreign objects.",
    technique="dispatch exhaustiveness + keyword/dialect table over the resolved Set(...) call sites + must-pass-through rule on the closure loop + exact-guard rules on the struct skeleton",
-   design="§3.C12")
+   design="§3.C12, §12, §14.2")
 checks["C14"]=dict(
    text="Generator-side necessary conditions for 'every option and argument needed to reproduce v appears exactly once': each FromBuilder call runs on its own generator (no mapped-path memory from one builder to the next); every option is mapped and only empty mappings are discarded; the already-mapped key distinguishes assignments by path, constant and envelope fields; options appending union branches to a list are grouped by the list's path alone; the choice between builders of one type is guarded by constructor constants only; each language's converter template consumes every member of languages.ArgumentMapping (Disjunction exempt where the chain removes unions).",
    note="Three of the six rules (key, grouping, choice guards) were written after independent seeded changes showed which structural facts the behaviour hinges on; they are exact-shape rules on languages/converter.go. NOT decided: that the printed expression compiles and rebuilds the object (two stages of execution away), default guards, value formatting.",
@@ -91,10 +91,10 @@ checks["C11"]=dict(
    technique="exact-argument rules on the format strings that write JSON keys (key positions recognised between quotes) + sibling agreement with Go's omission rule + traversal-completeness of the from_json generator",
    design="§3.C01/C11")
 checks["C04"]=dict(
-   text="Eleven structural clauses, each a necessary condition of 'never panics / never hangs' (a reported site is a potential crash; every site reported on the pinned tree was triaged: 50 fixed in /repo, 7 recorded as findings): bounded recursion and loops through references (visited set filled by the function / depth bound / leaf-kind test; closures included); no explicit panic reachable from the pipeline entry points; no unchecked single-value type assertion on `any` values; no pointer lookup used or handed on with its found-flag discarded; guarded constant indexing at the JSON-family parser frontier; every one of the 566 accesses to a kind-specific member of ast.Type (AsStruct(), .Struct.…) dominated by a test that the same access path has that kind — intraprocedurally (conditions, switch, loop conditions, exit guards, boolean locals, kind equality), through summaries of cog's own predicates and resolvers, or at every call site up to five levels up; enum members are scalars by construction; every one of the 180 constant indexes into slices / strings dominated by a length test, an IR invariant checked on its producers (enums have members, unions have branches, constraints carry an argument) or a reviewed reason; consistent key derivation on probed-and-filled sets.",
+   text="Structural clauses, each a necessary condition of 'never panics / never hangs' (a reported site is a potential crash or hang; every site reported on the pinned tree was triaged: 40 fixed in /repo, 7 recorded as findings): bounded recursion and loops through references (visited set filled by the function / depth bound / leaf-kind test; closures included); no explicit panic reachable from the pipeline entry points; no unchecked single-value type assertion on `any` values; no pointer lookup used or handed on with its found-flag discarded; guarded constant indexing at the JSON-family parser frontier; every one of the 566 accesses to a kind-specific member of ast.Type (AsStruct(), .Struct.…) dominated by a test that the same access path has that kind — intraprocedurally (conditions, switch, loop conditions, exit guards, boolean locals, kind equality), through summaries of cog's own predicates and resolvers, or at every call site up to five levels up; enum members are scalars by construction; every one of the 180 constant indexes into slices / strings dominated by a length test, an IR invariant checked on its producers (enums have members, unions have branches, constraints carry an argument) or a reviewed reason; consistent key derivation on probed-and-filled sets; every membership-guarded recursive function records its argument in the set unconditionally before descending (13 sites); worklist loops skip handled entries and no loop waits for a value (rather than a size) to stop changing (0 sites + built-in examples the rule must fire on); ast.Path is non-empty at every producer; the 44 dereferences of pointer-typed IR members and the pointer entries of configuration lists are nil-tested.",
    note="Trusted: the AST-level call graph (static calls, class-hierarchy interface calls, func-typed fields by stored values; func literals attributed to their enclosing function); text/template recovers panics of template functions; the reviewed tables (20 kind accesses, assertions, lookups, recursion edges — each with its reason; table entries are beliefs confirmed by reading, not re-derived). NOT decided: non-constant indexes, IR given literally in configuration files, nil dereference of pointers other than the kind members, stack depth on deeply nested acyclic input, time/space blow-up, panics inside third-party libraries.",
    technique="call-graph SCC + guard recognition on the AST (recursion/loops), call-graph reachability (panics), dominance of comma-ok / kind tests with interprocedural predicate summaries and call-site propagation (assertions, kind accesses), reviewed exemption tables",
-   design="§3.C04, §12.1, §13.2, §13.3")
+   design="§3.C04, §12.1, §13.2, §13.3, §14.2")
 checks["C08"]=dict(
    text="Generator-side necessary conditions decided on the parsed Go templates and the Go helper they share: the recursive validation and strict-decoding templates reach every depth (array/map value types, nullable values, every field, referenced structs and scalar aliases) and end in an uncommented sentinel; the pruning predicate resolvesToConstraints agrees with the template kind by kind; every constraint operator a parser produces is translated; the strict decoder consumes each declared key, reports every remaining key and emits the 'missing'/'null' errors under exactly Required∧Default==nil / Required∧¬Nullable.",
    note="Trusted: text/template/parse trees; the emitted Go text is not parsed. 'If and only if' on concrete documents, error paths and encoding/json behaviour are not decided (they need generated code to run).",
